@@ -8,6 +8,9 @@ Written from the text of C04/C05, not from the implementation:
   * conditional (protocol-following transaction: one register at a time, ascending addresses,
     possibly abandoned, idle gaps allowed): read data = slice of the value presented when the
     first chunk was read; write data at the strobe = the chunks written in this transaction.
+    The reads of a transaction ascend strictly, so do its writes, and the addresses of all its
+    accesses together never descend: a read and a write of the same chunk may share a cycle or
+    follow each other in either order (the read and the write of one register woven together).
 The tracker decides what is "protocol-following"; whatever it does not accept is left unchecked.
 """
 
@@ -46,7 +49,9 @@ class RegFile:
                 assert a not in self.by_addr
                 self.by_addr[a] = r
         self.cur = None      # register index of the open transaction
-        self.last = None     # last address accessed in it
+        self.last = None     # last (highest) address accessed in it
+        self.last_r = None   # last address read / written in it
+        self.last_w = None
         self.snap = None     # snapshot value (None: first chunk was not read in this transaction)
         self.wbuf = {}       # chunk offset -> value written in this transaction
         self.first_of_txn = False
@@ -65,16 +70,26 @@ class RegFile:
         if r_stb or w_stb:
             if hit is None:
                 self._break()
-            elif addr == hit.start:
-                self.cur = hit.idx
-                self.last = addr
-                self.snap = None
-                self.wbuf = {}
-                e.txn_start = True
-            elif self.cur == hit.idx and addr > self.last:
-                self.last = addr
             else:
-                self._break()
+                cont = self.cur == hit.idx and addr >= self.last and \
+                    not (r_stb and self.last_r is not None and addr <= self.last_r) and \
+                    not (w_stb and self.last_w is not None and addr <= self.last_w)
+                if cont:
+                    self.last = addr
+                elif addr == hit.start:
+                    self.cur = hit.idx
+                    self.last = addr
+                    self.last_r = self.last_w = None
+                    self.snap = None
+                    self.wbuf = {}
+                    e.txn_start = True
+                else:
+                    self._break()
+                if self.cur is not None:
+                    if r_stb:
+                        self.last_r = addr
+                    if w_stb:
+                        self.last_w = addr
         for r in self.regs:
             if r.readable:
                 e.r_stb[r.idx] = 1 if (r_stb and addr == r.start) else 0
@@ -144,6 +159,36 @@ def expand_csr_ops(ops, regs, addr_width, data_width, garbage):
                 d = int(data[j]) & dmask if j < len(data) else 0
                 cyc.append((start + j, int(mode in ("r", "rw")), int(mode in ("w", "rw")), d,
                             "txn" if n == size else "txn-abort"))
+        elif k == "weave":
+            # a read and a write transaction on one register woven together: per chunk the
+            # two accesses share a cycle (0), read first (1) or write first (2); either may stop
+            # early (abandoned)
+            if not regs:
+                idle(1, "idle")
+                continue
+            start, end = regs[int(op.get("reg", 0)) % len(regs)]
+            size = end - start
+            rn = 1 + int(op.get("rn", 0)) % size
+            wn = 1 + int(op.get("wn", 0)) % size
+            order = op.get("ord") or []
+            gaps = op.get("gaps") or []
+            data = op.get("data") or []
+            for j in range(max(rn, wn)):
+                g = int(gaps[j]) if j < len(gaps) else 0
+                if g > 0:
+                    idle(min(g, 4), "gap")
+                d = int(data[j]) & dmask if j < len(data) else 0
+                o = int(order[j]) % 3 if j < len(order) else 0
+                do_r, do_w = j < rn, j < wn
+                if do_r and do_w and o == 0:
+                    cyc.append((start + j, 1, 1, d, "weave"))
+                else:
+                    seq = [("r", do_r), ("w", do_w)]
+                    if o == 2:
+                        seq.reverse()
+                    for which, do in seq:
+                        if do:
+                            cyc.append((start + j, int(which == "r"), int(which == "w"), d, "weave"))
         else:
             idle(1, "idle")
     return cyc
